@@ -47,6 +47,7 @@ func checkC02(ctx *Ctx, r *Report) {
 	c11FifthRound(ctx, r)
 	c02GoConstructorNames(ctx, r)
 	c02FourthHunt(ctx, r)
+	c02PythonModuleNames(ctx, r)
 	c16FourthHunt(ctx, r) // a union branch referring to a constant: the Go builder does not type-check
 	c09FifthHunt(ctx, r)  // Python methods shadowing imported modules; integer bounds that overflow int64 in the generated Go
 	c02RuntimeGuard(ctx, r)
@@ -3340,4 +3341,79 @@ func c02FourthHunt(ctx *Ctx, r *Report) {
 	}
 	r.Count("hunted clauses of well-formed output (4th hunt)", n)
 	r.Floor("hunted clauses of well-formed output (4th hunt)", 10)
+}
+
+// c02PythonModuleNames (lead of §23.1, confirmed): the package of a schema gives its name to a Python module, which the
+// other modules and the builders import under that name (`from ..models import <package>`). RawTypes.Generate has to
+// pass the name through something — a formatter, or a test that fails the run — before it becomes a file name:
+// `with-dashes`, `1st`, `class` are legal packages and no importable modules. Recorded finding: the golden file
+// package-with-dashes/PythonRawTypes/models/with-dashes.py pins the raw name.
+func c02PythonModuleNames(ctx *Ctx, r *Report) {
+	fn := ctx.LookupMethod("internal/jennies/python", "RawTypes", "Generate")
+	fd, p := ctx.DeclOf(fn)
+	if fd == nil {
+		r.Undecided("anchor lost: python.RawTypes.Generate")
+		return
+	}
+	info := p.TypesInfo
+	isPackageSel := func(e ast.Expr) bool {
+		sel, ok := ast.Unparen(e).(*ast.SelectorExpr)
+		return ok && sel.Sel.Name == "Package" && namedName(info.TypeOf(sel.X)) == "Schema"
+	}
+	// the package handed to a function of the jenny whose result decides an error exit
+	tested := false
+	ast.Inspect(fd.Body, func(m ast.Node) bool {
+		is, ok := m.(*ast.IfStmt)
+		if !ok || !endsInExit(is.Body) {
+			return true
+		}
+		ast.Inspect(is.Cond, func(k ast.Node) bool {
+			if c, ok := k.(*ast.CallExpr); ok {
+				if f := callee(info, c); f != nil && f.Pkg() == p.Types {
+					for _, a := range c.Args {
+						if isPackageSel(a) {
+							tested = true
+						}
+					}
+				}
+			}
+			return true
+		})
+		return true
+	})
+	files := 0
+	raw := 0
+	ast.Inspect(fd.Body, func(m ast.Node) bool {
+		c, ok := m.(*ast.CallExpr)
+		if !ok {
+			return true
+		}
+		f := callee(info, c)
+		if f == nil || f.Pkg() == nil || f.Pkg().Path() != "path/filepath" || f.Name() != "Join" {
+			return true
+		}
+		files++
+		for _, a := range c.Args {
+			ast.Inspect(a, func(k ast.Node) bool {
+				if call, ok := k.(*ast.CallExpr); ok {
+					// a formatter applied to the package: what it returns is not the raw name
+					if cf := callee(info, call); cf != nil && cf.Pkg() == p.Types {
+						return false
+					}
+				}
+				if e, ok := k.(ast.Expr); ok && isPackageSel(e) {
+					raw++
+				}
+				return true
+			})
+		}
+		return true
+	})
+	if files == 0 {
+		r.Undecided("anchor changed: python.RawTypes.Generate builds no file name")
+		return
+	}
+	r.Count("module file names built by python.RawTypes.Generate", files)
+	r.Check(raw == 0 || tested, "skeleton/python-module-names-importable", "python.RawTypes.Generate names the module after the package", fd.Pos(), "through a formatter, or after a test that fails the run",
+		"the module is named after the package as it is: `package: with-dashes` gives models/with-dashes.py, `1st` and `class` likewise — files that py_compile accepts or not, and that no `from ..models import …` can name: the builders and the modules that refer to the package can not be imported, while the run succeeds")
 }
